@@ -187,6 +187,13 @@ def run_single(ctx, case):
     # 5. fresh session lookup
     if case.get("cache") and case.get("byid_first"):
         sig.fresh(root).update_cache()
+    fn_cache = os.path.join(root, model.CACHE_FILE)
+    if os.path.exists(fn_cache) and int(expected[2:4], 16) % 2 == 0:
+        # time stamps as a restore from backup or an out-of-step clock leaves them: the workspace directory looks
+        # older than the cache file although it has changed since
+        t = os.stat(fn_cache).st_mtime - 3600
+        os.utime(os.path.join(root, "workspace"), (t, t))
+        ctx.count("workspace_mtime_set_older_than_cache_file")
     p2 = sig.fresh(root)
     ctx.monitor("fresh_lookup")
     problems = []
